@@ -523,8 +523,16 @@ func vfC12Sender(res *vfResult) {
 	maxLen := vfPick(300, 1500)
 	for mtu := 1; mtu <= vfPick(64, 200); mtu++ {
 		c := &Conn{maximumTransmissionUnit: mtu}
-		for n := 0; n <= maxLen; n++ {
-			if n > 130 && n%7 != 0 {
+		// (long messages at the smallest MTUs too: a certificate chain at MTU 1..4 is hundreds to thousands of fragments)
+		top := maxLen
+		if mtu <= 4 {
+			top = 4200
+		}
+		for n := 0; n <= top; n++ {
+			if n > 130 && n%7 != 0 && !(mtu <= 4 && n > maxLen && n%499 < 3) {
+				continue
+			}
+			if n > maxLen && n%7 == 0 && n%5 != 0 {
 				continue
 			}
 			body := vfMsgBody(3, n)
